@@ -451,6 +451,7 @@ Inductive step :=
 | SOpen (x : bool)
 | SClose (x : bool)
 | SCmd (x : bool)
+| SCmdFail (x : bool)
 | SGate (x : bool) (w r : bool)
 | SKill.
 
@@ -474,6 +475,12 @@ Definition do_step (c : cfg) (s : st) (t : step) : st * res :=
       let e := gep s x in let h := eh e in
       if e_cmds h =? 0 then (s, RCode 0)
       else (kill (set_hnd x (mkH (e_ws h) (e_nq h) (e_evs h) (e_peers h) (e_clog h) (e_cmds h - 1)) (eg e) s), RCode 1)
+  | SCmdFail x =>
+      (* the protocol takes a ForceClose command whose connection is already gone: force_close fails
+         and the result is ignored *)
+      let e := gep s x in let h := eh e in
+      if e_cmds h =? 0 then (s, RCode 0)
+      else (set_hnd x (mkH (e_ws h) (e_nq h) (e_evs h) (e_peers h) (e_clog h) (e_cmds h - 1)) (eg e) s, RCode 1)
   | SGate x w r => (slo s x (mkL w r (carrier (glo s x))), RCode 0)
   | SKill => if per s =? 0 then (s, RCode 1) else (kill s, RCode 0)
   end.
@@ -559,13 +566,17 @@ Fixpoint drain_a (c : cfg) (fuel : nat) (s : st) (acc : list hev) : st * list he
       end
   end.
 
-(* the harness empties the command channels after every action *)
-Definition drain_cmds (s : st) : st :=
-  let f := fun x s => let e := gep s x in let h := eh e in
-                      set_hnd x (mkH (e_ws h) (e_nq h) (e_evs h) (e_peers h) (e_clog h) 0) (eg e) s in
-  f false (f true s).
-
 Definition code_of (r : res) : N := match r with RCode v => v | RUser _ => 9 end.
+
+(* the harness empties the command channels after every action without acting on the commands *)
+Fixpoint drain_x (fuel : nat) (c : cfg) (x : bool) (s : st) : st :=
+  match fuel with
+  | O => s
+  | S f => drain_x f c x (fst (do_step c s (SCmdFail x)))
+  end.
+Definition drain_cmds (c : cfg) (s : st) : st :=
+  let s1 := drain_x (N.to_nat (e_cmds (eh (gep s true)))) c true s in
+  drain_x (N.to_nat (e_cmds (eh (gep s1 false)))) c false s1.
 
 Definition act (c : cfg) (i : N) (s : st) (a : action) : st * ares :=
   match a with
@@ -579,11 +590,13 @@ Definition act (c : cfg) (i : N) (s : st) (a : action) : st * ares :=
       (s1, AEvents l)
   | ACloseA => let '(s1, r) := do_step c s (SClose true) in (s1, ACode (code_of r))
   | ACloseB => let '(s1, r) := do_step c s (SClose false) in (s1, ACode (code_of r))
-  | AKill => if e_alive (ec (gep s true)) || e_alive (ec (gep s false)) then (kill s, ACode 0) else (s, ACode 1)
+  | AKill =>
+      if e_alive (ec (gep s true)) || e_alive (ec (gep s false))
+      then let '(s1, r) := do_step c s SKill in (s1, ACode (code_of r)) else (s, ACode 1)
   | AReopen =>
       if e_alive (ec (gep s true)) || e_alive (ec (gep s false)) then (s, ACode 1)
       else let '(s1, _) := open_stream false s in let '(s2, _) := open_stream true s1 in (s2, ACode 0)
   end.
 
 Definition astep (c : cfg) (i : N) (s : st) (a : action) : st * ares :=
-  let '(s1, r) := act c i s a in (drain_cmds (settle c s1), r).
+  let '(s1, r) := act c i s a in (drain_cmds c (settle c s1), r).
